@@ -149,6 +149,8 @@ class MemoryStorage(AbstractStorage):
             else:
                 event.id = 0
             self.db[bucket].append(event)
+            # Hand out a copy: the stored event must not be reachable through the returned one
+            event = copy.deepcopy(event)
         return event
 
     def delete(self, bucket_id, event_id):
